@@ -252,6 +252,18 @@ def runPolls : Nat → List Bool → St → St × List Bool
   | _ + 1, true :: r, s => (s.emit (.term true), r)
   | k + 1, false :: r, s => runPolls k r (s.emit (.term false))
 
+/-- the loop of `LogicalLinkController.run_as_initiator` / `run_as_target` (src/nfc/llcp/llc.py):
+`while not terminate(): <one exchange with the peer>` - `terminate()` is asked at the head of EVERY
+turn, whether or not the local link layer has a PDU to send (`busy`) or received one; the turn's
+exchange then finds the peer gone when the traffic list is used up ("link disruption").
+`runLoop l` IS the scripted `llc.run` answer `polls (l.length + 1)` of `llcpRole` (theorem
+`runLoop_eq`); the driver turns a traffic answer `r<bits>` into exactly that. -/
+def runLoop : List Bool → List Bool → St → St × List Bool
+  | _, [], s => (s.emit (.term true), [])
+  | _, true :: r, s => (s.emit (.term true), r)
+  | [], false :: r, s => (s.emit (.term false), r)
+  | _busy :: tr, false :: r, s => runLoop tr r (s.emit (.term false))
+
 /-- one role of `_llcp_connect`: `none` = not activated, go on with the next role -/
 def llcpRole (o : LlcpOpts) (initiator : Bool) (ts : List Bool) (s : St) : Option (Py RetVal) × St × List Bool :=
   let (a, s1) := s.ask (.llcActivate initiator)
